@@ -1,16 +1,16 @@
-SPECIFICATION TSpec
+SPECIFICATION Spec
 CONSTANTS
-  Cats1 = {}
-  MaxOver1 = 0
-  Cats2 = {}
-  MaxOver2 = 0
+  Cats1 = {8, 12, 13}
+  MaxOver1 = 2
+  Cats2 = {12}
+  MaxOver2 = 1
   Time = {1}
   Locales = {"C"}
   EnvSizes = {0}
   PwdValues = {"real", "link"}
   CwdVia = {"real", "link"}
   OcNames = {"rel"}
-  CwdSource = "getcwd"
+  CwdSource = "PWD"
   TieBreak = "signature"
-INVARIANT OneOrderPerContent
-CHECK_DEADLOCK TRUE
+INVARIANT OutputPure
+CHECK_DEADLOCK FALSE
